@@ -19,9 +19,9 @@ T(pairs) == [r \in {pairs[k][1] : k \in 1..Len(pairs)} |-> pairs[CHOOSE k \in 1.
 ToOp(j) == Op(j.op, j.p, T(j.v), [k \in 1..Len(j.items) |-> <<j.items[k][1], T(j.items[k][2])>>], j.ou)
 PathSet(ps) == {ps[k] : k \in 1..Len(ps)}
 
-VARIABLE i
-Init == i \in 1..(NS + NT)
-Next == UNCHANGED i
+VARIABLE tidx
+Init == tidx \in 1..(NS + NT)
+Next == UNCHANGED tidx
 
 Say(kind, idx, clause) == PrintT(<<"R", kind, idx, clause>>)
 
@@ -60,6 +60,6 @@ CheckState(k) ==
      /\ ob.ne_changed \/ Say("state", k, "ne")
      /\ PathSet(ob.contains) = exp_in \/ Say("state", k, "contains")
 
-Check == IF i <= NS THEN CheckStep(i) ELSE CheckState(i - NS)
+Check == IF tidx <= NS THEN CheckStep(tidx) ELSE CheckState(tidx - NS)
 Inv == Check \/ TRUE
 =============================================================================
